@@ -91,8 +91,11 @@ func TestC18Ante(t *testing.T) {
 	out := newOut(t, "c18_ante")
 	defer out.Close()
 	r := rand.New(rand.NewSource(seed()))
-	k, _, _, _, ctx, _ := keepertest.ReporterKeeper(t)
+	k, skMock, _, _, ctx, _ := keepertest.ReporterKeeper(t)
 	fs := &fakeStaking{}
+	// should the keeper itself ever ask the staking module for the live bonded total during admission, it gets the
+	// same total as the decorator's staking keeper
+	skMock.On("TotalBondedTokens", mock.Anything).Return(func(context.Context) (math.Int, error) { return fs.total, nil }).Maybe()
 	dec := rante.NewTrackStakeChangesDecorator(k, fs)
 	n := count(6000, 200000)
 	incKinds := []string{"create", "delegate", "redelegate", "cancel"}
